@@ -28,6 +28,16 @@ def strategy(tier):
         lambda x: dict(x[0], win=[list(w) for w in x[1]], win2=[list(w) for w in x[2]]))
 
 
+def exhaustive(tier):
+    """Every tier: the fixed very long histories (a pair with 65-300 runs), each with windows that start and end on
+    run starts, run ends and their neighbours."""
+    cases = []
+    for k, c in enumerate(gen.very_long_cases()):
+        wins = [[(7 * k + 13 * j) % 64, (11 * k + 29 * j + 3) % 64, 'range'] for j in range(3)]
+        cases.append(dict(c, win=wins, win2=wins[::-1]))
+    return {'cases': cases, 'bound': '%d fixed very long histories (one pair with 65-300 runs) x 3 windows' % len(cases)}
+
+
 def interesting(M):
     pts = set()
     for k in M.orient:
@@ -148,6 +158,27 @@ def run_case(case, rec):
         ok, after = safe(observe, G, d.nodes, M.probes())
         rec.check('C06.source_unchanged', ok and after == before,
                   lambda: '%s changed the source graph in %r' % (ctx, diff(before, after) if ok else after))
+    # second life: the sliced object is emptied with clear() and refilled with the same history played later (same
+    # number of snapshot ids, an extent disjoint from the old one); a slice of the new content must not remember the old
+    inst = M.mentioned_instants()
+    if inst and len(case['ops']) % 2 == 1:
+        from ..drive import shifted
+        K = max(inst) - min(inst) + 7
+        ok, _ = safe(G.clear)
+        if ok:
+            d2 = Driver(dict(case, ops=[shifted(op, K) for op in case['ops']]))
+            d2.G = G
+            if all(d2.step(op)['actual'] == d2.last['expected'] for op in d2.case['ops']) and d2.M.orient:
+                pts2 = interesting(d2.M)
+                for w in case['win'][:2]:
+                    a, b, mode = window(pts2, w)
+                    if mode != 'range':
+                        continue
+                    ctx = 'after clear() and refill %s instants later: time_slice(%s, %s)' % (common.R(K), common.R(a), common.R(b))
+                    ok, H = safe(G.time_slice, a, b)
+                    if rec.check('C06.second_life.call', ok, lambda: '%s raised %r' % (ctx, H)):
+                        check_slice(rec, 'C06.second_life', H, d2.M.slice(a, b), G, d2.M, d2.nodes, ctx, full=False)
+                rec.classify('sliced again after clear() and refill')
     for c in d.classes:
         rec.classify(c)
     rec.classify(case['cls'])
